@@ -601,6 +601,9 @@ def translate_disk_cache(w):
     w(f"def subdir_spec : List Char := {chars(m.group(3))}")
     if not re.search(r"path\.push\(key_str\);\s*path\s*\}\s*else\s*\{\s*self\.config\.cache_dir\.join\(key_str\)\s*\}", g):
         raise TranslationError("get_file_path: `path.push(key_str)` / `cache_dir.join(key_str)` not found")
+    # the string that is pushed / joined is the key text itself, bound once and not re-spelled
+    if len(re.findall(r"\blet\s+(?:mut\s+)?key_str\b", g)) != 1 or not re.search(r"let key_str = key\.as_cache_key\(\);", g):
+        raise TranslationError("get_file_path: `key_str` is not (only) `key.as_cache_key()`: the file name is no longer the key text")
     wf = fn_body(src, "write_file")
     m = one(r'let temp_path = path\.with_extension\("(\w+)"\);', wf, "write_file: temp name")
     w("/-- `write_file`: `path.with_extension(EXT)` -/")
@@ -878,6 +881,9 @@ def translate_storage(w):
     k = oi.index("return Err(crate::StorageError::Config(")
     if "self.base_path.join(name)" not in oi[k:] or "self.base_path.join(name)" in oi[:k]:
         raise TranslationError("open_installation: base_path.join(name) is not behind the name check")
+    # the string that is joined is the string that was checked: `name` is the parameter, never re-bound
+    if re.search(r"\blet\s+(?:mut\s+)?name\b", oi):
+        raise TranslationError("open_installation: `name` is re-bound inside the function: the joined name is not the checked one")
     w("/-- `open_installation`: the name check (non-empty, every component `Normal`) stands in front of `base_path.join(name)` -/")
     w("def install_name_checked : Bool := true")
     w("")
